@@ -21,6 +21,8 @@ func main() {
 		err = cmdDispatch(os.Args[2:])
 	case "egress":
 		err = cmdEgress(os.Args[2:])
+	case "ingress":
+		err = cmdIngress(os.Args[2:])
 	default:
 		err = fmt.Errorf("unknown subcommand %q", os.Args[1])
 	}
